@@ -297,8 +297,13 @@ class Future(BaseFuture):
         if isinstance(other, Future):
             other_operand = self.builder._mem_mgr.get_inactive_register(activate=True)
             other_tmp_register = other_operand
+            # `other` is only read: it must not be stored back (that would undo the
+            # addition when `other` is the same array entry as `self`)
             load_commands += other.get_load_commands(other_tmp_register)
-            store_commands += other._get_store_commands(other_tmp_register)
+        elif isinstance(other, RegFuture):
+            # NOTE a RegFuture is also an `int`: check for it first
+            assert other.reg is not None
+            other_operand = other.reg
         elif isinstance(other, operand.Register) or isinstance(other, int):
             other_operand = other
         else:
@@ -472,8 +477,13 @@ class RegFuture(BaseFuture):
         if isinstance(other, Future):
             other_operand = self.builder._mem_mgr.get_inactive_register(activate=True)
             other_tmp_register = other_operand
+            # `other` is only read: it must not be stored back (that would undo the
+            # addition when `other` is the same array entry as `self`)
             load_commands += other.get_load_commands(other_tmp_register)
-            store_commands += other._get_store_commands(other_tmp_register)
+        elif isinstance(other, RegFuture):
+            # NOTE a RegFuture is also an `int`: check for it first
+            assert other.reg is not None
+            other_operand = other.reg
         elif isinstance(other, operand.Register) or isinstance(other, int):
             other_operand = other
         else:
